@@ -1490,6 +1490,61 @@ def probe_pagecopy():
     return guard(ran["copy"]), guard(ran["files"])
 
 
+PAGENAME_PROBE = ["index.md", "plain.md", "release-1.2.md", "v2.0-notes.md", "sub.dir/index.md", "sub.dir/a.b.c.md", "sub.dir/deep/index.md",
+                  "sub.dir/deep/changes.2024.md"]
+
+
+def probe_pagename():
+    """How the three places that name a static page derive the name of its HTML file from the stem of the Markdown file:
+    `PageNode.url` (every link FORD writes to the page), `PagetreePage.outfile` (the file written) and `PagetreePage.loc`
+    (the search index URL) - observed on the real objects that the real `get_page_tree` builds for a scratch tree whose
+    file and directory names contain dots.  Each must be <base>/page/<location>/<name> with <name> = `with_suffix(".html")`
+    of the stem for all pages, or `<stem>.html` for all pages; anything else raises."""
+    import os
+    from pathlib import PurePosixPath
+    from types import SimpleNamespace
+    import ford.output as fo
+    from ford._markdown import MetaMarkdown
+    from ford.pagetree import get_page_tree
+
+    with common.scratch_dir("ford-c09-nameprobe-") as d:
+        d = Path(os.path.realpath(d))
+        out = d / "doc"
+        for rel in PAGENAME_PROBE:
+            f = d / "pages" / rel
+            f.parent.mkdir(parents=True, exist_ok=True)
+            f.write_text(f"---\ntitle: T {rel}\n---\n\ntext\n")
+        with common.quiet():
+            top = get_page_tree(d / "pages", [], out, MetaMarkdown(base_url=out))
+        if top is None:
+            raise LookupError("get_page_tree returns nothing for the page-name probe tree")
+        nodes = list(top)
+        got_src = sorted((str(n.location).replace(os.sep, "/") + "/" + str(n.filename)).removeprefix("./") for n in nodes)
+        if got_src != sorted(r[:-3] for r in PAGENAME_PROBE):
+            raise LookupError(f"get_page_tree: pages of the probe tree are {got_src}")
+        data = {"output_dir": out, "relative": True, "page_dir": d / "pages"}
+        proj = SimpleNamespace(settings=SimpleNamespace(project_url=out))
+        seen = {"url": [], "outfile": [], "loc": []}
+        for n in nodes:
+            pg = fo.PagetreePage(data, proj, n)
+            loc = [x for x in str(n.location).replace(os.sep, "/").split("/") if x not in (".", "")]
+            stem = str(n.filename)
+            for place, val, root in (("url", n.url, out), ("outfile", pg.outfile, out), ("loc", pg.loc, None)):
+                parts = list(Path(os.path.relpath(val, root)).parts) if root is not None else list(Path(val).parts)
+                if parts[:1] != ["page"] or parts[1:-1] != loc:
+                    raise LookupError(f"static page {'/'.join(loc + [stem])}.md: {place} is {val}, not <root>/page/<location>/<name>")
+                seen[place].append((stem, parts[-1]))
+    out_names = {}
+    for place, obs in seen.items():
+        if all(name == str(PurePosixPath(stem).with_suffix(".html")) for stem, name in obs):
+            out_names[place] = "withSuffix"
+        elif all(name == stem + ".html" for stem, name in obs):
+            out_names[place] = "appendHtml"
+        else:
+            raise LookupError(f"static pages: {place} names the HTML files {obs} - neither with_suffix('.html') nor <stem>.html")
+    return out_names
+
+
 def extract_pagecopy(repo: Path):
     """For which pages PagetreePage.writeout copies the `copy_subdir` directories / the plain files of the page directory -
     probed on the real method (renamed locals, reordered statements, helpers do not matter; what is written where does)."""
@@ -1499,7 +1554,181 @@ def extract_pagecopy(repo: Path):
     pn = ast.unparse(_func(ptree, "PageNode", "__init__"))
     if "self.copy_subdir = self.meta.copy_subdir or proj_copy_subdir" not in pn:
         raise LookupError("PageNode.copy_subdir is no longer `meta.copy_subdir or proj_copy_subdir`")
-    return {"copy_guard": copy_guard, "files_guard": files_guard}
+    return {"copy_guard": copy_guard, "files_guard": files_guard, "page_names": probe_pagename()}
+
+
+# ----------------------------------------------------------------- round 6: graph node URLs
+
+def probe_graph_nodes():
+    """`BaseNode.__init__` on real node objects for fake entities: the prefix put in front of an internal URL, the gates
+    (`visible`; for a binding also the `visible` of its type), and that nodes made from text / of external entities keep
+    their URL.  -> (prefix as given by graph_data.parent_dir?, visibleGate, boundGate, keepsForeign)"""
+    from types import SimpleNamespace
+    import ford.graphs as fg
+    from ford.sourceform import FortranBoundProcedure
+
+    gd = SimpleNamespace(parent_dir="PARENT/")
+
+    def ent(cls=None, **kw):
+        d = dict(ident="x", name="x", visible=True)
+        d.update(kw)
+        if cls is None:
+            o = SimpleNamespace(**d)
+        else:
+            o = cls.__new__(cls)
+            o.__dict__.update(d)
+        o.get_dir = lambda: "module"
+        o.get_url = lambda: "module/x.html"
+        return o
+
+    def url(o):
+        return fg.BaseNode(o, gd).attribs.get("URL")
+
+    plain = url(ent())
+    if plain != "PARENT/module/x.html":
+        raise LookupError(f"BaseNode: URL of an internal visible entity is {plain!r}, not graph_data.parent_dir + get_url()")
+    hidden = url(ent(visible=False))
+    if hidden not in (None, plain):
+        raise LookupError(f"BaseNode: URL of an invisible entity is {hidden!r}")
+    b_ok = url(ent(FortranBoundProcedure, parent=SimpleNamespace(visible=True)))
+    b_hidden_parent = url(ent(FortranBoundProcedure, parent=SimpleNamespace(visible=False)))
+    if b_ok != plain or b_hidden_parent not in (None, plain):
+        raise LookupError(f"BaseNode: URL of a binding is {b_ok!r} / with an invisible type {b_hidden_parent!r}")
+    nourl = ent()
+    nourl.get_url = lambda: None
+    if url(nourl) is not None:
+        raise LookupError("BaseNode: an entity without URL gets a node URL")
+    ext = url(ent(external_url="https://example.org/doc"))
+    txt = fg.BaseNode("<a href='https://example.org/m.html'>m</a>", gd).attribs.get("URL")
+    if ext == "module/x.html" and txt == "https://example.org/m.html":
+        foreign = True
+    elif ext == plain and txt == "PARENT/https://example.org/m.html":
+        foreign = False
+    else:
+        raise LookupError(f"BaseNode: URL of an entity with external_url is {ext!r}, of a text node {txt!r}")
+    return hidden is None, b_hidden_parent is None, foreign
+
+
+def extract_graphurl(repo: Path):
+    """parent_dir of a relative run (ast of Documentation.__init__ + the real GraphManager hands it to the nodes' graph data),
+    the gates of BaseNode (probed), and the templates that print a graph (Jinja AST: `{{ <x>.<...graph> }}` directly or in a
+    macro they call) with the depth of the pages rendered through them (outfile of a real page object of every class with
+    that `template_path`)."""
+    import os
+    from types import SimpleNamespace
+    import ford.output as fo
+    import ford.graphs as fg
+    from jinja2 import nodes as N
+
+    otree = ast.parse((repo / "ford" / "output.py").read_text())
+    init = _func(otree, "Documentation", "__init__")
+    parent = None
+    for n in ast.walk(init):
+        if isinstance(n, ast.If) and ast.unparse(n.test) in ("settings.relative", "self.data['relative']", 'self.data["relative"]'):
+            for st in n.body:
+                if isinstance(st, ast.Assign) and isinstance(st.value, ast.Constant) and isinstance(st.value.value, str):
+                    name = ast.unparse(st.targets[0])
+                    calls = [c for c in ast.walk(init) if isinstance(c, ast.Call) and ast.unparse(c.func) == "GraphManager"]
+                    if len(calls) == 1 and len(calls[0].args) >= 2 and ast.unparse(calls[0].args[1]) == name:
+                        parent = st.value.value
+    if parent is None:
+        raise LookupError("Documentation.__init__: no `if settings.relative: <name> = '<prefix>'` handed to GraphManager as parent directory")
+    gm = fg.GraphManager("", "SENTINEL/", False, False, save_graphs=False)
+    if not any(getattr(v, "parent_dir", None) == "SENTINEL/" for v in vars(gm).values()):
+        raise LookupError("GraphManager: the second argument is not the parent_dir of the graph data of the nodes")
+    if parent and not parent.endswith("/"):
+        raise LookupError(f"graph parent directory {parent!r} does not end with '/'")
+    parent_segs = [x for x in parent[:-1].split("/")] if parent else []
+    vis_gate, bound_gate, foreign = probe_graph_nodes()
+
+    # templates that print a graph
+    tdir = repo / "ford" / "templates"
+    trees = {f.name: fo.env.parse(f.read_text()) for f in sorted(tdir.glob("*.html"))}
+
+    def is_graph_output(t):
+        for o in t.find_all(N.Output):
+            for g in o.find_all(N.Getattr):
+                if g.attr.endswith("graph"):
+                    return True
+        return False
+
+    macro_graph = {}       # template -> macro names that print a graph
+    for name, t in trees.items():
+        for m in t.find_all(N.Macro):
+            if is_graph_output(m):
+                macro_graph.setdefault(name, set()).add(m.name)
+    hosts = set()
+    n_direct = 0
+    for name, t in trees.items():
+        direct = False
+        for o in t.find_all(N.Output):
+            # outputs that are not inside a macro definition of this template
+            pass
+        body_wo_macros = [o for o in t.find_all(N.Output)]
+        in_macros = {id(o) for m in t.find_all(N.Macro) for o in m.find_all(N.Output)}
+        for o in body_wo_macros:
+            if id(o) in in_macros:
+                continue
+            if any(g.attr.endswith("graph") for g in o.find_all(N.Getattr)):
+                direct = True
+                n_direct += 1
+        called = False
+        imports = {}
+        for imp in t.find_all(N.Import):
+            if isinstance(imp.template, N.Const):
+                imports[imp.target] = imp.template.value
+        for c in t.find_all(N.Call):
+            if isinstance(c.node, N.Getattr) and isinstance(c.node.node, N.Name) and c.node.node.name in imports \
+                    and c.node.attr in macro_graph.get(imports[c.node.node.name], ()):
+                called = True
+            if isinstance(c.node, N.Name) and c.node.name in macro_graph.get(name, ()):
+                called = True
+        for fi in t.find_all(N.FromImport):
+            if isinstance(fi.template, N.Const) and any((x if isinstance(x, str) else x[0]) in macro_graph.get(fi.template.value, ()) for x in fi.names):
+                called = True
+        if direct or called:
+            hosts.add(name)
+    text_count = sum(len(re.findall(r"\{\{\s*[\w.]+graph\s*\}\}", f.read_text())) for f in tdir.glob("*.html"))
+    ast_count = sum(1 for t in trees.values() for o in t.find_all(N.Output) for g in o.find_all(N.Getattr) if g.attr.endswith("graph"))
+    if text_count != ast_count or not hosts:
+        raise LookupError(f"templates: {text_count} graph outputs in the text, {ast_count} in the Jinja AST, hosts {sorted(hosts)}")
+    macro_only = {n for n in macro_graph if n not in hosts}
+    # extends: a template that extends a host prints what the host prints in its blocks - none today; pin it
+    for name, t in trees.items():
+        for e in t.find_all(N.Extends):
+            if isinstance(e.template, N.Const) and e.template.value in hosts:
+                hosts.add(name)
+
+    # depth of the pages of every class rendered through a host template
+    data = {"output_dir": Path("/o"), "page_dir": Path("/src/pages"), "relative": True}
+    proj = SimpleNamespace(settings=SimpleNamespace(project_url=Path("/o")))
+    by_tpl = {}
+    for cname, cls in vars(fo).items():
+        if isinstance(cls, type) and issubclass(cls, fo.BasePage) and isinstance(cls.__dict__.get("template_path"), str):
+            by_tpl.setdefault(cls.template_path, []).append(cls)
+    out = []
+    for h in sorted(hosts):
+        classes = by_tpl.get(h, [])
+        if not classes:
+            raise LookupError(f"template {h} prints a graph but no page class has it as template_path")
+        depths = set()
+        for cls in classes:
+            if issubclass(cls, fo.PagetreePage):
+                depths.add("other")
+                continue
+            obj = SimpleNamespace(get_dir=lambda: "dd", ident="x", name="x", obj="proc", meta=None)
+            try:
+                pg = cls(data, proj, obj) if issubclass(cls, fo.DocPage) else cls(data, proj)
+                rel = os.path.relpath(pg.outfile, "/o")
+            except Exception as e:  # noqa: BLE001
+                raise LookupError(f"page class {cname} of template {h}: cannot determine its output file ({e})")
+            d = len(Path(rel).parts) - 1
+            depths.add({0: "zero", 1: "one"}.get(d, "other"))
+        if len(depths) != 1:
+            raise LookupError(f"template {h}: pages at different depths {depths}")
+        out.append((h, depths.pop()))
+    return {"graph_parent": parent_segs, "graph_vis_gate": vis_gate, "graph_bound_gate": bound_gate, "graph_foreign": foreign,
+            "graph_hosts": out, "graph_macro_templates": sorted(macro_only)}
 
 
 def lpieces(ps) -> str:
@@ -1524,6 +1753,7 @@ def extract(repo: Path | None = None) -> dict:
     vis.update(extract_relurl(repo))
     vis.update(extract_pagecopy(repo))
     vis.update(extract_mdreset(repo))
+    vis.update(extract_graphurl(repo))
     vis["asset_writes"] = extract_asset_writes(repo)
     vis["asset_links"] = extract_asset_links(repo, nav)
     vis["aliases"], page_tree_write = extract_aliases(repo)
@@ -1535,7 +1765,7 @@ def to_lean(d: dict) -> str:
     L = ["/- GENERATED by translate/c09.py from ford/output.py, ford/sourceform.py, ford/fortran_project.py, ford/utils.py, ford/settings.py,",
          "   ford/__init__.py, ford/templates/base.html, ford/templates/index.html - do not edit -/",
          "import FordModel.Nav", "import FordModel.Url", "import FordModel.StrLink", "import FordModel.ReadMore", "import FordModel.Relurl",
-         "import FordModel.Assets", "import FordModel.Footnotes", "import FordModel.Memo",
+         "import FordModel.Assets", "import FordModel.Footnotes", "import FordModel.Memo", "import FordModel.GraphUrl",
          "namespace Ford.Generated.C09",
          "open Ford Ford.Nav Ford.Url", ""]
     L.append("def navTables : Nav.Tables := {")
@@ -1611,14 +1841,25 @@ def to_lean(d: dict) -> str:
     L += ["    (%s, %s)%s  -- |%s| -> %s" % (lstr(a), lpieces(ps), "," if i < len(d["aliases"]) - 1 else "", a, show_pieces(ps) or "(root)")
           for i, (a, ps) in enumerate(d["aliases"])]
     L += ["  ]", "}", "",
-          "/-- PagetreePage.writeout: the guards of the loops over `self.obj.copy_subdir` and `self.obj.files` -/",
-          "def pageTables : Assets.PageTables := { copyGuard := Assets.CopyGuard.%s, filesGuard := Assets.CopyGuard.%s }" % (
-              d["copy_guard"], d["files_guard"])]
+          "/-- PagetreePage.writeout: the guards of the loops over `self.obj.copy_subdir` and `self.obj.files`;",
+          "    `names`: how PageNode.url / PagetreePage.outfile / PagetreePage.loc name the HTML file of a static page (probed) -/",
+          "def pageTables : Assets.PageTables := { copyGuard := Assets.CopyGuard.%s, filesGuard := Assets.CopyGuard.%s, "
+          "names := ⟨PageName.Naming.%s, PageName.Naming.%s, PageName.Naming.%s⟩ }  -- names: url, outfile, loc" % (
+              d["copy_guard"], d["files_guard"], d["page_names"]["url"], d["page_names"]["outfile"], d["page_names"]["loc"])]
     L += ["", "/-- the conversion sites that start from a reset Markdown converter (probed on the real pipeline) -/",
           "def mdTables : Footnotes.Tables := { resets := %s, resetsFirst := %s }" % (
               llist("Footnotes.Site." + x for x in d["md_resets"]), llist("Footnotes.Site." + x for x in d["md_resets_first"])),
           "", "/-- what the registered `relurl` filter reuses an earlier result by (probed on the real callable) -/",
           "def memoKey : Memo.Key := Memo.Key.%s" % d["memo_key"]]
+    lb = lambda b: "true" if b else "false"
+    L += ["", "/-- graph node URLs: the prefix of a relative run, the gates of BaseNode (probed), the templates that print a graph",
+          "    with the depth of the pages rendered through them -/",
+          "def graphTables : GraphUrl.Tables := {\n  parentDir := %s, visibleGate := %s, boundGate := %s, keepsForeign := %s," % (
+              llist(lstr(x) for x in d["graph_parent"]), lb(d["graph_vis_gate"]), lb(d["graph_bound_gate"]), lb(d["graph_foreign"])),
+          "  hosts := ["]
+    L += ["    (%s, GraphUrl.Depth.%s)%s  -- %s" % (lstr(h), dp, "," if i < len(d["graph_hosts"]) - 1 else "", h)
+          for i, (h, dp) in enumerate(d["graph_hosts"])]
+    L += ["  ] }"]
     L += ["", "end Ford.Generated.C09", ""]
     return "\n".join(L)
 
